@@ -144,6 +144,9 @@ func unmarshalMessageSet(mi *MessageInfo, b []byte, p pointer, opts unmarshalOpt
 	err = messageset.Unmarshal(b, true, func(num protowire.Number, v []byte) error {
 		o, err := mi.unmarshalExtension(v, num, protowire.BytesType, ext, opts)
 		if err == errUnknown {
+			if opts.DiscardUnknown() {
+				return nil
+			}
 			u := mi.mutableUnknownBytes(p)
 			*u = protowire.AppendTag(*u, num, protowire.BytesType)
 			*u = append(*u, v...)
